@@ -4,7 +4,7 @@
    nat, positive, N, Z, ascii stay the extracted inductives. *)
 Require Import Strum.Model.Bytes Strum.Model.Defs Strum.Model.Heck Strum.Model.Meta Strum.Model.Names
                Strum.Model.FromStr Strum.Model.Display Strum.Model.Iter Strum.Model.Table Strum.Model.Misc
-               Strum.Model.Repr Strum.Model.Reject Strum.Spec.FromStrSpec.
+               Strum.Model.Repr Strum.Model.Reject Strum.Spec.FromStrSpec Strum.Model.Paths.
 From Coq Require Extraction ExtrOcamlBasic.
 Extraction Language OCaml.
 Extraction "../extract/model.ml"
@@ -22,5 +22,6 @@ Extraction "../extract/model.ml"
   gen_props run_get_str run_get_int run_get_bool
   gen_discriminants run_discr_from
   vspell vci matches_b eligible_b non_overlap_b all_vprops
+  refs_ok ref_ok
   outcome rule_applies all_rules all_derives
   gen_from_repr gen_from_repr_legacy run_from_repr rustc_discr repr_range discr_ty.
